@@ -245,5 +245,12 @@ def run(ctx):
         c02.rule_deck(PrefixCtx(ctx, "C02", "C11"), evalmodel.get(F))
     except Unrecognised as e:
         ctx.unrecognised("C11.deck", e.msg, e.fn, e.line)
+    # .. and following a reordering of the players needs every combination of the players' combos to be dealt whatever the
+    # seat order: the odometer advances the rightmost player with room and resets the later ones (C02's odometer rule; one
+    # that advances the leftmost one deals a seat-order-dependent subset)
+    try:
+        c02.rule_odometer_any(PrefixCtx(ctx, "C02", "C11"), evalmodel.get(F), evalmodel.get(F).deal)
+    except Unrecognised as e:
+        ctx.unrecognised("C11.R-odometer", e.msg, e.fn, e.line)
     ctx.assume("the deck / odometer order only permutes the multiset of deals (C02 decides necessary conditions of the enumeration, not this)")
     ctx.assume("relabelling suits maps ranges to ranges (HandRange is keyed by normalised pairs, C14)")
